@@ -51,8 +51,11 @@ type C12Case struct {
 	// Names: how candidate k of class c (index 4*c+k) is called: 0 = the plain name, else an entry of c12NameForms (blanks,
 	// non-ASCII letters in UTF-8 and in a legacy 8-bit encoding, a leading dot, a very long name ...); NestedName likewise for
 	// the sub-directory of the nested candidates. A file name is a sequence of bytes, the configuration is inside the file.
-	Names      [8]int `json:"names,omitempty"`
-	NestedName int    `json:"nested_name,omitempty"`
+	Names [8]int `json:"names,omitempty"`
+	// SameName: the user's file for the exact identifier is called like the factory default file (a copy of the factory
+	// default that the user gave the identifier of his own device). A name decides nothing - the identifier inside does.
+	SameName   bool `json:"same_name,omitempty"`
+	NestedName int  `json:"nested_name,omitempty"`
 }
 
 var c12NameForms = []string{"%s", "my %s", "Ger\xe4t %s", "пульт-%s", ".%s", "%s", "a-very-long-name-" + strings.Repeat("x", 150) + "-%s", "\xff\xfe%s", "caf\u00e9 %s", "tab\there %s"}
@@ -60,6 +63,19 @@ var c12DirForms = []string{"by-room", "fr\xfcher", "старое", "with blank",
 
 func c12Name(c *C12Case, idx int, plain string) string {
 	return fmt.Sprintf(c12NameForms[c.Names[idx]%len(c12NameForms)], plain)
+}
+
+// c12FileName: base name of candidate k (0 user exact, 1 user default, 2 factory exact, 3 factory default) of a class.
+func c12FileName(c *C12Case, class, k int) string {
+	present := [][4]bool{c.Kbd, c.Pad}[class]
+	if c.SameName && k == 0 && !(present[1] && c.Nested[4*class+0] == c.Nested[4*class+1]) {
+		return c12Name(c, 4*class+3, "0_default.toml")
+	}
+	name := fmt.Sprintf("device_%s.toml", c12Tags[k])
+	if k%2 == 1 {
+		name = "0_default.toml"
+	}
+	return c12Name(c, 4*class+k, name)
 }
 
 func c12Config(tag string, id [4]uint16) string {
@@ -203,12 +219,10 @@ func c12WriteCandidates(root string, c *C12Case, write func(dir int, name string
 				dir = 2 + class // factory/<class>
 			}
 			id := c.ID
-			name := fmt.Sprintf("device_%s.toml", c12Tags[k])
 			if k%2 == 1 {
 				id = zero
-				name = "0_default.toml"
 			}
-			name = c12Name(c, 4*class+k, name)
+			name := c12FileName(c, class, k)
 			if c.Nested[4*class+k] {
 				name = filepath.Join(c12DirForms[c.NestedName%len(c12DirForms)], "office", name)
 			}
@@ -368,11 +382,7 @@ func checkC12(c C12Case) (bool, *Violation) {
 				return violation("C12", "wrong-precedence", c12Tags[want]+gen, "expected the %s %s file (present=%v, id match=%v, class %s); got %q of type %q with mapping %q",
 					wantType, c12Tags[want], present, match, cls, got.ConfigFile, got.ConfigType, firstMappingName(&got))
 			}
-			wantFile := fmt.Sprintf("device_%s.toml", c12Tags[want])
-			if want%2 == 1 {
-				wantFile = "0_default.toml"
-			}
-			wantFile = c12Name(&c, 4*dirBase+want, wantFile)
+			wantFile := c12FileName(&c, dirBase, want)
 			if got.ConfigFile != wantFile {
 				return violation("C12", "wrong-file-name", "", "ConfigFile = %q, want %q", got.ConfigFile, wantFile)
 			}
@@ -436,6 +446,7 @@ func checkC12(c C12Case) (bool, *Violation) {
 	for _, l := range c.Linked {
 		classifyIf(l, "a candidate file that is a symbolic link")
 	}
+	classifyIf(c.SameName, "the user's file for the device is called like the factory default file")
 	for _, nm := range c.Names {
 		classifyIf(nm == 2 || nm == 7, "a candidate file whose name is not valid UTF-8")
 		classifyIf(nm != 0 && nm != 2 && nm != 7 && nm != 5, "a candidate file with blanks / non-ASCII letters / a leading dot / a very long name")
@@ -522,6 +533,7 @@ func genC12(t *rapid.T) C12Case {
 		}
 	}
 	c.NestedName = rapid.SampledFrom([]int{0, 0, 0, 1, 2, 3, 4}).Draw(t, "nestedName")
+	c.SameName = rapid.IntRange(0, 3).Draw(t, "sameName") == 0
 	if c.MissingDir < 0 {
 		c.Resave = rapid.SampledFrom([]int{0, 0, 0, 1, 2}).Draw(t, "resave")
 		if c.Resave > 0 {
